@@ -144,3 +144,108 @@ Corollary change_signature_a_ok (dom : mdomain) (a a' : maction) (m : renaming) 
 Proof.
   intros Hok Hnd Hkeys. apply change_signature_a_inactive. apply (renaming_ok_no_target dom); assumption.
 Qed.
+
+(* ---------- the fuel suffices: nesting depth ---------- *)
+Fixpoint depth_pre (p : mpre) : nat :=
+  match p with
+  | MPre _ os _ _ =>
+      S ((fix go (l : list mcond) : nat := match l with [] => 0 | c :: r => Nat.max (depth_cond c) (go r) end) os)
+  end
+with depth_cond (c : mcond) : nat :=
+  match c with
+  | MLit _ _ _ | MNum _ => 1
+  | MNested q => S (depth_pre q)
+  | MUniv _ _ body => S (depth_pre body)
+  end.
+
+Definition depth_action (a : maction) : nat :=
+  Nat.max (depth_pre (ma_pre a))
+          (Nat.max (list_max (map (fun ce => depth_pre (ce_ante ce)) (ma_cond a)))
+                   (list_max (map (fun ue => depth_pre (ce_ante (ue_ce ue))) (ma_univ a)))).
+
+Lemma depth_pre_unfold op os eqs neqs : depth_pre (MPre op os eqs neqs) = S (list_max (map depth_cond os)).
+Proof.
+  simpl. f_equal. induction os as [|c r IH]; simpl; [reflexivity|]. rewrite IH. reflexivity.
+Qed.
+
+Lemma mapM_all_ok {A C} (f : A -> result C) (g : A -> C) (l : list A) :
+  (forall x, In x l -> f x = Ok (g x)) -> mapM f l = Ok (map g l).
+Proof.
+  induction l as [|a r IH]; simpl; intros H; [reflexivity|].
+  rewrite (H a (or_introl eq_refl)). simpl. rewrite IH; [reflexivity|]. intros x Hx. apply H. right. exact Hx.
+Qed.
+
+Lemma list_max_in (l : list nat) x : In x l -> x <= list_max l.
+Proof.
+  induction l as [|y r IH]; simpl; intros H; [contradiction|].
+  destruct H as [->|H]; [apply Nat.le_max_l|]. apply Nat.le_trans with (list_max r); [apply IH; exact H|apply Nat.le_max_r].
+Qed.
+
+Lemma rename_a_total B : forall fuel,
+  (forall m p, no_target_in B m -> incl (bound_pre p) B -> depth_pre p <= fuel -> rename_pre_a fuel m p = Ok (rename_pre m p)) /\
+  (forall m c, no_target_in B m -> incl (bound_cond c) B -> depth_cond c <= fuel -> rename_cond_a fuel m c = Ok (rename_cond m c)).
+Proof.
+  induction fuel as [|fu [IHp IHc]].
+  - split.
+    + intros m [op os eqs neqs] _ _ H. rewrite depth_pre_unfold in H. inversion H.
+    + intros m c _ _ H. destruct c; simpl in H; inversion H.
+  - split.
+    + intros m [op os eqs neqs] Hm Hb Hd. cbn [rename_pre_a]. rewrite depth_pre_unfold in Hd. rewrite bound_pre_unfold in Hb.
+      rewrite (mapM_all_ok (rename_cond_a fu m) (rename_cond m) os).
+      * rewrite rename_pre_unfold. reflexivity.
+      * intros c Hc. apply IHc; [exact Hm| |].
+        -- intros x Hx. apply Hb. apply in_flat_map. exists c. split; assumption.
+        -- apply le_S_n in Hd. apply Nat.le_trans with (list_max (map depth_cond os)); [|exact Hd].
+           apply list_max_in. apply in_map. exact Hc.
+    + intros m c Hm Hb Hd. destruct c as [pos p args|t|q|v ty body]; cbn [rename_cond_a].
+      * reflexivity.
+      * reflexivity.
+      * simpl in Hd. apply le_S_n in Hd. rewrite (IHp m q Hm Hb Hd). reflexivity.
+      * assert (Hv : In v B) by (apply Hb; left; reflexivity).
+        rewrite (inactive B m v Hm Hv). simpl in Hd. apply le_S_n in Hd.
+        rewrite (IHp (drop m v) body (no_target_drop B m v Hm)); [reflexivity| |exact Hd].
+        intros x Hx. apply Hb. right. exact Hx.
+Qed.
+
+Theorem change_signature_fuel_total (fuel : nat) (m : renaming) (a : maction) :
+  no_target_in (bound_maction a) m -> depth_action a <= fuel ->
+  change_signature_fuel fuel m a = Ok (change_signature m a).
+Proof.
+  intros Hm Hd. unfold change_signature_fuel, depth_action in *. unfold bound_maction in Hm.
+  set (B := bound_pre (ma_pre a) ++ flat_map (fun ce => bound_pre (ce_ante ce)) (ma_cond a) ++
+            flat_map (fun ue => ue_var ue :: bound_pre (ce_ante (ue_ce ue))) (ma_univ a)) in *.
+  assert (D1 : depth_pre (ma_pre a) <= fuel) by (eapply Nat.le_trans; [apply Nat.le_max_l|exact Hd]).
+  assert (D2 : list_max (map (fun ce => depth_pre (ce_ante ce)) (ma_cond a)) <= fuel).
+  { eapply Nat.le_trans; [|exact Hd]. eapply Nat.le_trans; [apply Nat.le_max_l|apply Nat.le_max_r]. }
+  assert (D3 : list_max (map (fun ue => depth_pre (ce_ante (ue_ce ue))) (ma_univ a)) <= fuel).
+  { eapply Nat.le_trans; [|exact Hd]. eapply Nat.le_trans; [apply Nat.le_max_r|apply Nat.le_max_r]. }
+  rewrite (proj1 (rename_a_total B fuel) m (ma_pre a) Hm); [| |exact D1].
+  2:{ intros x Hx. unfold B. apply in_or_app. left. exact Hx. }
+  simpl.
+  rewrite (mapM_all_ok (rename_condeff_a fuel m) (rename_condeff m) (ma_cond a)).
+  2:{ intros ce Hce. unfold rename_condeff_a.
+      rewrite (proj1 (rename_a_total B fuel) m (ce_ante ce) Hm); [reflexivity| |].
+      - intros x Hx. unfold B. apply in_or_app. right. apply in_or_app. left. apply in_flat_map. exists ce. split; assumption.
+      - eapply Nat.le_trans; [|exact D2]. apply list_max_in. apply (in_map (fun ce => depth_pre (ce_ante ce))). exact Hce. }
+  simpl.
+  rewrite (mapM_all_ok (rename_univeff_a fuel m) (rename_univeff m) (ma_univ a)); [reflexivity|].
+  intros ue Hue. unfold rename_univeff_a.
+  assert (Hv : In (ue_var ue) B).
+  { unfold B. apply in_or_app. right. apply in_or_app. right. apply in_flat_map. exists ue. split; [exact Hue|left; reflexivity]. }
+  rewrite (inactive B m (ue_var ue) Hm Hv). unfold rename_condeff_a.
+  rewrite (proj1 (rename_a_total B fuel) (drop m (ue_var ue)) (ce_ante (ue_ce ue)) (no_target_drop B m _ Hm)); [reflexivity| |].
+  - intros x Hx. unfold B. apply in_or_app. right. apply in_or_app. right. apply in_flat_map. exists ue. split; [exact Hue|right; exact Hx].
+  - eapply Nat.le_trans; [|exact D3]. apply list_max_in. apply (in_map (fun ue => depth_pre (ce_ante (ue_ce ue)))). exact Hue.
+Qed.
+
+(* the renaming of the repaired code, on the fragment of theorem C18_rename: it returns, and returns what the renaming
+   without the alpha step returns (nesting depth of the conditions at most alpha_fuel = 200) *)
+Theorem change_signature_a_total (dom : mdomain) (a : maction) (m : renaming) :
+  renaming_ok dom a m = true -> NoDup (dkeys m) ->
+  (forall k x, In (k, x) m -> k <> x -> In k (names_action a)) ->
+  depth_action a <= alpha_fuel ->
+  change_signature_a m a = Ok (change_signature m a).
+Proof.
+  intros Hok Hnd Hkeys Hd. unfold change_signature_a. apply change_signature_fuel_total; [|exact Hd].
+  apply (renaming_ok_no_target dom); assumption.
+Qed.
